@@ -346,6 +346,29 @@ func vInitialFontWeight() (int, []string) {
 //@   ensures[same-length] len(result) == len(value)
 //@   loop 1 invariant fresh(out) && len(out) == len(value) && (len(value) > 0 ==> !samebase(out, value))
 //@   call length_#1 assert[each-length-with-the-element-font-size] arg0 == computer && arg1.Dimension == value[rangeindex] && arg1.S == "" && arg2 == -1 && !arg3
+//@ func centers
+//@   props C04
+//@   requires computer != nil
+//@   modifies anything
+//@   ensures[fresh-list] len(value) > 0 ==> fresh(result) && !samebase(result, value)
+//@   ensures[same-length] len(result) == len(value)
+//@   loop 1 invariant fresh(out) && len(out) == len(value) && (len(value) > 0 ==> !samebase(out, value))
+//@   call length_#1 assert[x-with-the-element-font-size] arg0 == computer && arg1.Dimension == value[rangeindex].Pos[0] && arg2 == -1 && !arg3
+//@   call length_#2 assert[y-with-the-element-font-size] arg0 == computer && arg1.Dimension == v.Pos[1] && arg2 == -1 && !arg3
+//@ func lengths_
+//@   props C04
+//@   requires computer != nil
+//@   modifies anything
+//@   ensures[fresh-list] len(value) > 0 ==> fresh(result) && !samebase(result, value)
+//@   ensures[same-length] len(result) == len(value)
+//@   loop 1 invariant fresh(out) && len(out) == len(value) && (len(value) > 0 ==> !samebase(out, value))
+//@   call length_#1 assert[each-length-with-the-element-font-size] arg0 == computer && arg1 == value[rangeindex] && arg2 == -1 && arg3
+//@ func backgroundSize
+//@   props C04
+//@   requires computer != nil
+//@   modifies anything
+//@   ensures[fresh-list] typeIs(_value, pr.Sizes) && len(_value.(pr.Sizes)) > 0 ==> fresh(result.(pr.Sizes))
+//@   loop 1 invariant fresh(out) && len(out) == len(value)
 //@ func transforms
 //@   props C04
 //@   requires computer != nil
